@@ -160,6 +160,10 @@ def impl_run(case):
                 p[f"{op['op']}_mode{sfx}"] = cfg["mode"]
             if cfg.get("check"):
                 p[f"check_mode{sfx}"] = cfg["check"]
+            # parameters of OTHER operations configured for the same object (as on every test node, which carries
+            # get/set/unset settings side by side): the operation at hand must not read them
+            for k2, v2 in (cfg.get("bystanders") or {}).items():
+                p[f"{k2}{sfx}"] = v2
         STORE.log = []
         fn = getattr(ss, op["op"] + "_states")
         try:
@@ -290,6 +294,16 @@ def random_case(rng, nops):
                     mode = rng.choice(LETTERS) + rng.choice(LETTERS)
                 chk = None if rng.random() < 0.6 else rng.choice(["rf", "rr", "ff", "fr", "rx", "ir"])
                 cfg["/".join(k)] = {"state": st, "mode": mode, "check": chk}
+                if rng.random() < 0.35:
+                    others = [o for o in ("get", "set", "unset") if o != op and not (op == "push" and o == "set")
+                              and not (op == "pop" and o in ("get", "unset"))]
+                    by = {}
+                    for o in others:
+                        if rng.random() < 0.6:
+                            by[f"{o}_state"] = rng.choice(NAMES)
+                            if rng.random() < 0.5:
+                                by[f"{o}_mode"] = rng.choice("arif") + rng.choice("arif")
+                    cfg["/".join(k)]["bystanders"] = by
         ops.append({"op": op, "objs": cfg})
     return {"vms": vms, "skip_types": skip, "readonly": readonly,
             "sourced": {"1": rng.random() < 0.3, "2": rng.random() < 0.3, "3": rng.random() < 0.5},
